@@ -747,6 +747,79 @@ fn check_templates(seed: u64, n: u64, rep: &mut Report) {
     }
 }
 
+/// JER object keys are the ASN.1 identifiers themselves (X.697): component and alternative names that are reserved words of
+/// ECMAScript / TypeScript are legal property names and must come out unchanged. Exhaustive over 40 such words x {SEQUENCE
+/// component, SET component, CHOICE alternative, component of a nested anonymous SEQUENCE}.
+fn reserved_word_keys(rep: &mut Report) {
+    const WORDS: [&str; 40] = [
+        "break", "case", "catch", "class", "const", "continue", "debugger", "default", "delete", "do", "else", "enum", "export", "extends", "false", "finally", "for", "function", "if",
+        "import", "in", "instanceof", "new", "null", "return", "super", "switch", "this", "throw", "true", "try", "typeof", "var", "void", "while", "with", "let", "static", "yield", "type",
+    ];
+    for chunk in WORDS.chunks(8) {
+        let comps: Vec<String> = chunk.iter().enumerate().map(|(i, w)| format!("{w} {}", ["INTEGER", "BOOLEAN OPTIONAL", "NULL"][i % 3])).collect();
+        let alts: Vec<String> = chunk.iter().enumerate().map(|(i, w)| format!("{w} {}", ["NULL", "INTEGER", "BOOLEAN"][i % 3])).collect();
+        let src = format!(
+            "Mkw DEFINITIONS AUTOMATIC TAGS ::= BEGIN\nKwSeq ::= SEQUENCE {{ {c} }}\nKwSet ::= SET {{ {c} }}\nKwCh ::= CHOICE {{ {a} }}\nKwNest ::= SEQUENCE {{ outer SEQUENCE {{ {c} }} }}\nEND\n",
+            c = comps.join(", "),
+            a = alts.join(", ")
+        );
+        let run = comp::ts(&[src.clone()]);
+        rep.evaluations += 1;
+        let comp::Outcome::Ok { generated, warnings } = &run.out else {
+            rep.count("reserved_word_cases[not Ok]", 1);
+            continue;
+        };
+        if !warnings.is_empty() {
+            rep.count("reserved_word_cases[warnings]", 1);
+            continue;
+        }
+        let origin = format!("reserved-words({})", chunk.join(","));
+        let nss = match parse(generated) {
+            Ok(n) => n,
+            Err(e) => {
+                rep.violations.push(Violation { sig: "c18|output-not-well-formed|reserved-word-names".into(), what: format!("TypeScript output is not well-formed ({e}) [{origin}]"), replay: json!({"origin": origin, "sources": [src]}) });
+                continue;
+            }
+        };
+        rep.count("reserved_word_cases_judged", 1);
+        rep.nontrivial.insert(hash_str(&src));
+        let Some(ns) = nss.first() else { continue };
+        fn keys(t: &Ty, out: &mut Vec<String>) {
+            match t {
+                Ty::Obj { members, .. } => {
+                    for (k, _, inner) in members {
+                        out.push(k.clone());
+                        keys(inner, out);
+                    }
+                }
+                Ty::Arr(i) => keys(i, out),
+                Ty::Union(v) => v.iter().for_each(|x| keys(x, out)),
+                _ => {}
+            }
+        }
+        // the nested anonymous SEQUENCE may be hoisted into a declaration of its own: collect keys over all declarations
+        let mut all_keys: Vec<String> = vec![];
+        for (_, d) in &ns.decls {
+            if let Decl::Type(t) = d {
+                keys(t, &mut all_keys);
+            }
+        }
+        for w in chunk {
+            rep.count("reserved_word_keys_checked", 1);
+            let n = all_keys.iter().filter(|k| k.as_str() == *w).count();
+            // SEQUENCE, SET, CHOICE and the nested SEQUENCE each carry the key once
+            if n < 4 {
+                let near: Vec<&String> = all_keys.iter().filter(|k| k.contains(*w) && k.as_str() != *w).collect();
+                rep.violations.push(Violation {
+                    sig: "c18|object-key-differs-from-identifier|reserved-word".into(),
+                    what: format!("component / alternative `{w}` must appear as the key `{w}` in 4 object types, found {n} times (similar keys: {near:?}) [{origin}]"),
+                    replay: json!({"origin": origin, "sources": [src.clone()]}),
+                });
+            }
+        }
+    }
+}
+
 pub fn run(ctx: &Ctx) -> Report {
     let mut rep = Report::new(
         "exploration",
@@ -773,5 +846,6 @@ pub fn run(ctx: &Ctx) -> Report {
     });
     let mut rep = acc.into_inner();
     check_templates(seed, ctx.pick(300u64, 4000), &mut rep);
+    reserved_word_keys(&mut rep);
     rep
 }
